@@ -1,30 +1,38 @@
 ---------------------------- MODULE FileWrite ----------------------------
 (* Two-phase cart write: encode into a temporary stream, then copy to the destination.
    Faults: the k-th stream write fails, or the encoder raises by itself (Lua writer, sanity
-   re-parse, a section encoder, the PNG encoder). Direct == TRUE models the mutant that
-   encodes straight into the destination. *)
+   re-parse, a section encoder, the PNG encoder), or the temporary stream cannot be created
+   at all (no usable temp directory). Direct == TRUE models the mutant that encodes straight
+   into the destination; Fallback == TRUE the mutant that does so when the temporary stream
+   is unavailable. *)
 EXTENDS Naturals, Sequences, FiniteSets, TLC
 CONSTANTS K,            \* number of stream writes a successful encode performs
-          Direct        \* BOOLEAN
-VARIABLES dest, tmp, phase, n, dest0
-vars == <<dest, tmp, phase, n, dest0>>
+          Direct,       \* BOOLEAN
+          Fallback      \* BOOLEAN
+VARIABLES dest, tmp, phase, n, dest0, direct
+vars == <<dest, tmp, phase, n, dest0, direct>>
 Contents == {"absent", "old"}
-Init == /\ dest \in Contents /\ dest0 = dest /\ tmp = 0 /\ phase = "idle" /\ n = 0
+Init == /\ dest \in Contents /\ dest0 = dest /\ tmp = 0 /\ phase = "idle" /\ n = 0 /\ direct = Direct
 Begin == /\ phase = "idle" /\ phase' = "encoding"
-         /\ IF Direct THEN dest' = "partial:0" ELSE dest' = dest       \* open(dest, 'wb+') truncates
-         /\ UNCHANGED <<tmp, n, dest0>>
+         /\ IF direct THEN dest' = "partial:0" ELSE dest' = dest       \* open(dest, 'wb+') truncates
+         /\ UNCHANGED <<tmp, n, dest0, direct>>
+\* the temporary stream cannot be created: the write is over before it began (or, mutant, falls back to the destination)
+TempUnavailable == /\ phase = "idle" /\ ~direct
+                   /\ IF Fallback THEN phase' = "encoding" /\ direct' = TRUE /\ dest' = "partial:0"
+                                   ELSE phase' = "failed" /\ direct' = direct /\ dest' = dest
+                   /\ UNCHANGED <<tmp, n, dest0>>
 StreamWrite == /\ phase = "encoding" /\ n < K /\ n' = n + 1
-               /\ IF Direct THEN dest' = "partial" /\ tmp' = tmp ELSE tmp' = tmp + 1 /\ dest' = dest
-               /\ UNCHANGED <<phase, dest0>>
-StreamFault == /\ phase = "encoding" /\ n < K /\ phase' = "failed" /\ UNCHANGED <<dest, tmp, n, dest0>>
-EncoderRaises == /\ phase = "encoding" /\ phase' = "failed" /\ UNCHANGED <<dest, tmp, n, dest0>>
-EncodeReturns == /\ phase = "encoding" /\ n = K /\ phase' = (IF Direct THEN "done" ELSE "encoded")
-                 /\ (IF Direct THEN dest' = "new" ELSE dest' = dest) /\ UNCHANGED <<tmp, n, dest0>>
-Copy == /\ phase = "encoded" /\ dest' = "new" /\ phase' = "done" /\ UNCHANGED <<tmp, n, dest0>>
-Next == Begin \/ StreamWrite \/ StreamFault \/ EncoderRaises \/ EncodeReturns \/ Copy
+               /\ IF direct THEN dest' = "partial" /\ tmp' = tmp ELSE tmp' = tmp + 1 /\ dest' = dest
+               /\ UNCHANGED <<phase, dest0, direct>>
+StreamFault == /\ phase = "encoding" /\ n < K /\ phase' = "failed" /\ UNCHANGED <<dest, tmp, n, dest0, direct>>
+EncoderRaises == /\ phase = "encoding" /\ phase' = "failed" /\ UNCHANGED <<dest, tmp, n, dest0, direct>>
+EncodeReturns == /\ phase = "encoding" /\ n = K /\ phase' = (IF direct THEN "done" ELSE "encoded")
+                 /\ (IF direct THEN dest' = "new" ELSE dest' = dest) /\ UNCHANGED <<tmp, n, dest0, direct>>
+Copy == /\ phase = "encoded" /\ dest' = "new" /\ phase' = "done" /\ UNCHANGED <<tmp, n, dest0, direct>>
+Next == Begin \/ TempUnavailable \/ StreamWrite \/ StreamFault \/ EncoderRaises \/ EncodeReturns \/ Copy
 Spec == Init /\ [][Next]_vars
 \* C11: if producing the cart fails, the destination is exactly as before
 FailedWriteIsNoop == phase = "failed" => dest = dest0
-UntouchedWhileEncoding == phase \in {"idle", "encoding"} => dest = dest0
+UntouchedWhileEncoding == phase \in {"idle", "encoding"} => dest = dest0       \* (two-phase protocol: not while still encoding either)
 Completes == phase = "done" => dest = "new"
 =============================================================================
